@@ -10,6 +10,7 @@ import (
 	"crypto/tls"
 	"errors"
 	"fmt"
+	"sort"
 	"strings"
 	"time"
 
@@ -158,17 +159,20 @@ func monitor(sc scenario, tr *trace, s *vs.Sched) (key, what string) {
 	}
 	delay, timeout := time.Duration(sc.Delay)*unit, time.Duration(sc.Timeout)*unit
 	// 1. order
-	// (attempts begun after the outcome is decided run with a cancelled context and are handed out
-	// back to back: their relative order carries no meaning)
-	last := -1
-	for _, a := range tr.attempts {
+	// Start times must be non-decreasing in target order. Attempts released at the same virtual instant (two failures
+	// reported together free two workers at once) are concurrent: the order in which their DialFunc calls are entered
+	// carries no meaning. Attempts begun after the outcome is decided run with a cancelled context and are exempt too.
+	lastT, lastStart := -1, time.Duration(-1)
+	byTarget := append([]*attempt{}, tr.attempts...)
+	sort.SliceStable(byTarget, func(i, j int) bool { return byTarget[i].target < byTarget[j].target })
+	for _, a := range byTarget {
 		if a.ctxDoneAtEntry {
 			continue
 		}
-		if a.target <= last {
-			return "start-order", fmt.Sprintf("attempt for target %d started after target %d", a.target, last)
+		if a.start < lastStart {
+			return "start-order", fmt.Sprintf("attempt for target %d started at %v, before the attempt for target %d (%v)", a.target, a.start, lastT, lastStart)
 		}
-		last = a.target
+		lastT, lastStart = a.target, a.start
 	}
 	// 2. in flight, 3. staggering, 7. attempts after the decision
 	inflight, returned := 0, false
